@@ -52,6 +52,13 @@ def boundary (d p : Path) : Bool :=
 prefixes of `q`; monorail then filters with `is_path_prefix`. `hit k q` says key `k` survives. -/
 def hit (k q : Path) : Bool := !k.isEmpty && k.isPrefixOf q && boundary k q
 
+/-- the directory a key names: one trailing separator is dropped (`"core/"` names `core`) -/
+def dirOf (p : Path) : Path := if p.getLast? = some sep then p.dropLast else p
+
+/-- CODE (`Index::new`, lookup of a `uses` entry): the entry written with exactly one trailing
+separator (`s.strip_suffix('/').unwrap_or(s)` followed by `'/'`) -/
+def slashQ (u : Path) : Path := dirOf u ++ [sep]
+
 /-- LEGACY (pinned tree before the fix): raw byte-prefix match -/
 def hitLegacy (k q : Path) : Bool := !k.isEmpty && k.isPrefixOf q
 
